@@ -342,6 +342,10 @@ def run_clockuser(spec, acc):
                 actions[k] = ('move', rng.randrange(n), rng.randint(0, 4))
             elif x < 0.55 and ck != 'AppClock' and not nrt:
                 actions[k] = ('clear',)         # (a no-op in non real time)
+            elif x < 0.7 and ck == 'TempoClock':
+                # a tempo change re-keys nothing in beats: order and beats of the
+                # pending items are untouched (non real time re-times its queue)
+                actions[k] = ('tempo', rng.choice([1, 2, 4, 8]))
         # items that keep themselves going once: the first wake-up returns a delta
         rep = {k: rng.randint(1, 3) for k in range(n) if rng.random() < 0.3}
         nwakes = {}
@@ -365,6 +369,8 @@ def run_clockuser(spec, acc):
                         c.sched_abs(t, items[a[1]])
                 elif a and a[0] == 'clear':
                     c.clear()
+                elif a and a[0] == 'tempo':
+                    c.tempo = a[1]
                 if k in rep and nwakes[k] == 1:
                     return rep[k] * step
             return Function(f)
